@@ -316,7 +316,7 @@ func scenarioMachine(c *hlib.RunCtx) *hlib.Violation {
 	}
 	s.Transport = m.transport
 
-	switch t.Draw(3) {
+	switch t.Draw(4) {
 	case 0:
 		s.Strat = simrt.StratUniform
 	case 1:
@@ -324,6 +324,8 @@ func scenarioMachine(c *hlib.RunCtx) *hlib.Violation {
 		s.BurstNum, s.BurstDen = 7, 8
 	case 2:
 		s.SetPCT(1+t.Draw(3), 300)
+	case 3:
+		s.SetDelay([]string{"fs:create-excl", "fs:link", "fs:createtemp", "http:post", "http:result", "fs:stat", "fs:readfile", "fs:remove", "fs:readdir", "fs:writefile", "fs:write ", "config:download"}, 1+t.Rng.Intn(3))
 	}
 
 	rounds := 2 + t.Draw(3)
